@@ -30,7 +30,8 @@ COut == [t \in CTasks |-> CRec(t).outcome]
 \* tasks that were no longer active when the request under test arrived (non-critical tasks that had died): not targets
 CLive == {t \in CTasks : ~CRec(t).dead}
 CClasses == {case.tasks[i].class : i \in {j \in 1..Len(case.tasks) : ~case.tasks[j].dead}}
-CAllCritOk == \A t \in CTasks : CCrit[t] => COut[t] = "ok"
+\* (a critical task that had died before the request did not get there either)
+CAllCritOk == \A t \in CTasks : CCrit[t] => (COut[t] = "ok" /\ ~CRec(t).dead)
 IsTestCall == Line.call = case.call /\ (case.call = "create" \/ Line.op = case.op)
 
 TReset ==
@@ -61,7 +62,10 @@ TReply ==
                /\ nviol' = nviol
                     + Soft("Iff", (obs = "ok") <=> CAllCritOk, <<obs, CAllCritOk>>)
                     + Soft("FailureIsError",
-                           ~CAllCritOk => (IF case.call = "create" THEN Line.code # "OK" ELSE Line.st = "ERROR"),
+                           \* (the request returns an error, or reports ERROR: when the environment's own reaction to the loss of
+                           \*  the task has taken it to ERROR first, the API's follow-up GO_ERROR is refused and the caller gets
+                           \*  the error without a state; that the environment ends in ERROR is judged on the snapshot)
+                           ~CAllCritOk => (IF case.call = "create" THEN Line.code # "OK" ELSE (Line.st = "ERROR" \/ Line.code # "OK")),
                            <<Line.code, Line.st>>)
                     + Soft("NothingToCommand", CLive = {} => obs = "ok", obs)
                     \* DEPLOY: success or failure is known "in time" (the client's deadline is several deploy timeouts)
